@@ -352,6 +352,15 @@ func TestScheduledHistoriesAreLinearizable(t *testing.T) {
 			at[pr.At] = pr.To
 		}
 
+		// additionally one byte per scheduling decision: a small value preempts the running thread
+		if rapid.Bool().Draw(t, "denseSchedule") {
+			for step, v := range rapid.SliceOfN(rapid.Byte(), 1400, 1400).Draw(t, "schedule") {
+				if int(v) < 3 {
+					at[step] = (int(v) + step) % nthreads
+				}
+			}
+		}
+
 		w := newWorld()
 		sched := &vsync.Sched{}
 		rec := &recorder{now: func() int64 { return int64(sched.Steps) }}
